@@ -3520,6 +3520,9 @@ def _keys_to_items(source: str) -> Iterable[Tuple[ast.AST, ast.AST]]:
 @processing.fix
 def _items_to_keys(source: str) -> Iterable[Tuple[ast.AST, ast.AST]]:
     root = core.parse(source)
+    if _reads_underscore(root):
+        return  # the value stays bound to _ in that case
+
     template = ast.comprehension(
         target=ast.Tuple(elts=[core.Wildcard("target", object), ast.Name(id="_")]),
         iter=ast.Call(
@@ -3540,6 +3543,9 @@ def _items_to_keys(source: str) -> Iterable[Tuple[ast.AST, ast.AST]]:
 @processing.fix
 def _items_to_values(source: str) -> Iterable[Tuple[ast.AST, ast.AST]]:
     root = core.parse(source)
+    if _reads_underscore(root):
+        return  # the value stays bound to _ in that case
+
     template = ast.comprehension(
         target=ast.Tuple(elts=[ast.Name(id="_"), core.Wildcard("target", object)]),
         iter=ast.Call(
@@ -3604,6 +3610,9 @@ def _for_keys_to_items(source: str) -> Iterable[Tuple[ast.AST, ast.AST]]:
 @processing.fix
 def _for_items_to_keys(source: str) -> Iterable[Tuple[ast.AST, ast.AST]]:
     root = core.parse(source)
+    if _reads_underscore(root):
+        return  # the value stays bound to _ in that case
+
     template = ast.For(
         target=ast.Tuple(elts=[core.Wildcard("target", object), ast.Name(id="_")]),
         iter=ast.Call(
@@ -3622,6 +3631,9 @@ def _for_items_to_keys(source: str) -> Iterable[Tuple[ast.AST, ast.AST]]:
 @processing.fix
 def _for_items_to_values(source: str) -> Iterable[Tuple[ast.AST, ast.AST]]:
     root = core.parse(source)
+    if _reads_underscore(root):
+        return  # the value stays bound to _ in that case
+
     template = ast.For(
         target=ast.Tuple(elts=[ast.Name(id="_"), core.Wildcard("target", object)]),
         iter=ast.Call(
